@@ -4,6 +4,7 @@ from fractions import Fraction
 
 import numpy
 import shapely
+import xarray
 
 import emsarray  # noqa: F401
 from coqio import Some, coq_eval_sharded, to_coq
@@ -219,6 +220,25 @@ def run(ctx):
         elif r[0] == 'ok' and r[1][0] != r[1][1]:
             n = next(i for i, (a, b) in enumerate(zip(*r[1])) if a != b)
             ctx.report('property', f'position {n}: a shallow copy of the dataset has polygon {r[1][1][n]}, the dataset itself {r[1][0][n]}', case)
+
+    # a native index whose components are numpy integers of a narrow type denotes the same position as Python integers do,
+    # also where the position exceeds what the narrow type holds
+    dbig = gen.cf1d(rng, ny=190, nx=181, bounds=False)
+    vals = numpy.arange(190 * 181, dtype='f8').reshape(190, 181)
+    ydim, xdim = dbig.spec['kinds']['face']
+    dbig.ds['tag'] = xarray.DataArray(vals, dims=[ydim, xdim])
+    for (j, i) in [(189, 180), (181, 7), (0, 0), (127, 127)]:
+        for t in (numpy.int16, numpy.int32, numpy.uint8):
+            if max(j, i) > numpy.iinfo(t).max:
+                continue
+            ctx.case(('big', j, i, t.__name__), True)
+            ctx.count('large_grid:narrow integer index components')
+            r = attempt(dbig.ds.ems.ravel_index, (t(j), t(i)))
+            sel = attempt(lambda: float(dbig.ds.ems.select_index((t(j), t(i)))['tag'].values))
+            want = j * 181 + i
+            if not (r[0] == 'ok' and int(r[1]) == want) or sel != ('ok', float(want)):
+                ctx.report('property', f'cell ({j}, {i}) given as {t.__name__}: ravel_index = {r[1]!r}, select_index holds {sel[1]!r}; the cell '
+                           f'is at linear position {want} and holds {float(want)}', {'dataset': dbig.spec['label'], 'index': [j, i], 'dtype': t.__name__})
 
 
 def twin_leg(ctx, datasets):
